@@ -77,22 +77,25 @@ class TlcResult:
         return [l for l in self.out.splitlines() if l.startswith('<<"%s"' % tag)]
 
 
+TLA_CP = "/opt/veriftools/tla/tla2tools.jar:/opt/veriftools/tla/CommunityModules-deps.jar"
+
+
 def tlc(module, cfg=None, env=None, workers=8, timeout=900, simulate=None, extra=(), name=None,
-        deque=False, xss=True, coverage=False):
+        deque=False, coverage=False, heap=None):
     """Run TLC on spec/<module>.tla.  Returns TlcResult.  Raises ToolError on timeouts and on
     anything that is neither success nor a property violation (parse errors, evaluation errors)."""
     name = name or module
     meta = workdir("tlc_" + name)
     cfg = cfg or (module + ".cfg")
-    jopts = []
-    if xss:
-        jopts.append("-Xss512m")
-    if deque:
-        jopts.append("-Dtlc2.tool.queue.IStateQueue=StateDeque")
     e = clean_env(env)
-    e["JAVA_TOOL_OPTIONS"] = " ".join(jopts)
-    cmd = ["timeout", str(timeout), "tlc", "-workers", str(workers), "-metadir", meta, "-cleanup",
-           "-noGenerateSpecTE", "-config", cfg]
+    e.pop("JAVA_TOOL_OPTIONS", None)
+    cmd = ["timeout", str(timeout), "java", "-Xss1g", "-XX:+UseParallelGC"]
+    if deque:
+        cmd.append("-Dtlc2.tool.queue.IStateQueue=StateDeque")
+    if heap:
+        cmd.append("-Xmx" + heap)
+    cmd += ["-cp", TLA_CP, "tlc2.TLC", "-workers", str(workers), "-metadir", meta, "-cleanup",
+            "-noGenerateSpecTE", "-config", cfg]
     if coverage:
         cmd += ["-coverage", "1"]
     if simulate:
@@ -210,3 +213,61 @@ class Check:
             print("  key=%s :: %s" % (key, what))
         sys.stdout.flush()
         return 1 if self.violations else 0
+
+
+# ---------------------------------------------------------------- Mode P helper
+COV_LINE = re.compile(r"<(\w+) line \d+, col \d+ to line \d+, col \d+ of module (\w+)>: (\d+):(\d+)")
+
+
+def _product_shard(args):
+    module, cfg, path, tag, timeout = args
+    return tlc(module, cfg=cfg, env={"PAIRS": path}, workers=1, timeout=timeout, name=tag, heap="3g")
+
+
+def product_check(chk, module, cfg, pairs, tag, shards=12, timeout=1500, max_rounds=4, key_of=None, per_shard=20):
+    """Model-check the product machine over `pairs` (list of dicts with src/out/vars/diffs).
+    The pairs are split over several single-worker TLC processes (the specs park per-run data in
+    TLC registers, which is only safe with one worker per process).  Reports violations through
+    chk; returns dict of per-action coverage counts."""
+    from concurrent.futures import ThreadPoolExecutor
+    wd = workdir("prod_" + tag)
+    totals = {}
+    remaining = list(pairs)
+    for rnd in range(max_rounds):
+        if not remaining:
+            break
+        k = max(1, min(shards, (len(remaining) + per_shard - 1) // per_shard))
+        parts = [remaining[j::k] for j in range(k)]
+        jobs = []
+        for j, part in enumerate(parts):
+            path = os.path.join(wd, "pairs_%d.ndjson" % j)
+            write_ndjson(path, part)
+            jobs.append((module, cfg, path, "prod_%s_%d" % (tag, j), timeout))
+        with ThreadPoolExecutor(max_workers=k) as ex:
+            results = list(ex.map(_product_shard, jobs))
+        bad_ids = set()
+        for part, res in zip(parts, results):
+            chk.tlc_stats(res)
+            m = re.search(r'<<"COUNTS", (\d+), (\d+), (\d+)>>', res.out)
+            if m:
+                for kk, v in zip(("runs_compared", "runs_discarded", "runs_source_out_of_fuel"), m.groups()):
+                    totals[kk] = totals.get(kk, 0) + int(v)
+            if res.ok:
+                continue
+            inv = re.search(r"Invariant (\w+) is violated", res.out)
+            inv = inv.group(1) if inv else "unknown"
+            idx = None
+            for m in re.finditer(r"^/\\ i = (\d+)", res.out, re.M):
+                idx = int(m.group(1))
+            if idx is None:
+                raise ToolError("cannot locate the violating pair in TLC output\n" + res.out[-3000:])
+            bad = part[idx - 1]
+            trace = res.out[res.out.find("Error:"):][:12000]
+            key = key_of(inv, bad) if key_of else "%s:%s" % (inv, sha(bad.get("text", json.dumps(bad.get("src"))))[:10])
+            chk.report(key, "%s violated for program:\n%s" % (inv, bad.get("text", "")),
+                       {"invariant": inv, "pair": bad, "tlc_trace": trace, "module": module, "cfg": cfg})
+            bad_ids.add(id(bad))
+        if not bad_ids:
+            break
+        remaining = [p for p in remaining if id(p) not in bad_ids]
+    return totals
